@@ -103,6 +103,52 @@ theorem minor_elongation_argument (xi eta zeta xs ys zs : ℝ) :
     exact div_le_one_of_le₀ habs hd0
   exact abs_le.mp this
 
+/-! ## Right ascension and declination -/
+
+/-- `Angle(atan2(z, w), radians=True)` with `w ≥ 0` is an angle in [−90°, 90°]. -/
+theorem angle_of_atan2_range (z w : ℝ) (hw : 0 ≤ w) : -90 ≤ angOfRad (patan2 z w) ∧ angOfRad (patan2 z w) ≤ 90 := by
+  have habs : |Complex.arg ⟨w, z⟩| ≤ Real.pi / 2 := Complex.abs_arg_le_pi_div_two_iff.mpr hw
+  obtain ⟨h0, h1⟩ := abs_le.mp habs
+  have hpi := Real.pi_pos
+  have e : pdegrees (patan2 z w) = Complex.arg ⟨w, z⟩ * (180 / Real.pi) := rfl
+  have hk : (0 : ℝ) < 180 / Real.pi := by positivity
+  have hk2 : Real.pi * (180 / Real.pi) = 180 := by field_simp
+  have hd0 : -90 ≤ pdegrees (patan2 z w) := by rw [e]; nlinarith
+  have hd1 : pdegrees (patan2 z w) ≤ 90 := by rw [e]; nlinarith
+  unfold angOfRad
+  rw [angReduce_small _ (by rw [abs_lt]; constructor <;> linarith)]
+  exact ⟨hd0, hd1⟩
+
+/-- `ecliptical2equatorial` returns a right ascension in [0°, 360°) and a declination in [−90°, 90°], for all
+    arguments (it cannot raise: the declination comes from `atan2` with a non-negative second argument). -/
+theorem ecliptical2equatorial_range (lon lat eps ra dec : ℝ)
+    (h : Helio.ecliptical2equatorial lon lat eps = .ok (ra, dec)) :
+    0 ≤ ra ∧ ra < 360 ∧ -90 ≤ dec ∧ dec ≤ 90 := by
+  unfold Helio.ecliptical2equatorial at h
+  simp only [Except.ok.injEq, Prod.mk.injEq] at h
+  obtain ⟨h1, h2⟩ := h
+  rw [← h1, ← h2]
+  refine ⟨(angToPositive_range _ (angReduce_abs _).1).1, (angToPositive_range _ (angReduce_abs _).1).2, ?_⟩
+  exact angle_of_atan2_range _ _ (Real.sqrt_nonneg _)
+
+/-- "the returned right ascension/declination": whatever `<Planet>.geocentric_position` returns, the right
+    ascension is in [0°, 360°) and the declination in [−90°, 90°]. -/
+theorem planet_ra_dec_range (ep l0 b : ℝ) (v : ℝ × ℝ × ℝ) (ra dec elon : ℝ)
+    (h : planet_reduction ep l0 b v = .ok (ra, dec, elon)) : 0 ≤ ra ∧ ra < 360 ∧ -90 ≤ dec ∧ dec ≤ 90 := by
+  unfold planet_reduction at h
+  simp only [] at h
+  split_ifs at h with h1
+  split at h
+  · cases h
+  · rename_i ra' dec' he
+    have hr := ecliptical2equatorial_range _ _ _ ra' dec' he
+    split at h
+    · cases h
+    · split_ifs at h with h2
+      simp only [Except.ok.injEq, Prod.mk.injEq] at h
+      rw [← h.1, ← h.2.1]
+      exact hr
+
 /-! ## Pluto: "Pluto (1885-2099)" -/
 
 /-- `Pluto.geometric_heliocentric_position` raises `ValueError` exactly when the year is outside
